@@ -38,11 +38,19 @@
                                            C10_sky_history_refines_fresh, C10_sky_refused_preserves,
                                            C10_sky_read_pure, C10_sky_history_clearness,
                                            C10_sky_history_le_extraterrestrial, C10_sky_history_closure
+    the LIST level (round 4) ............. Model/SkyList (one pass over any sequence of altitudes):
+                                           C10_clear_sky_list_shape, C10_clear_sky_list_pointwise,
+                                           C10_clear_sky_list_append (same for the tau model: C10_revised_list_*),
+                                           C10_sky_list_closure_clear / _tau (three lists of a sky condition: equal
+                                           lengths, closure element by element, the first two ARE the stand-alone
+                                           model's lists), C10_sky_list_night_siblings (both sky classes give zeros)
+    branches of the case splits .......... C10_eps_category_branches, C10_alt_bin_branches
 -/
 import Ladybug.Proofs.C10Lemmas
 import Ladybug.Proofs.C10Dirint
 import Ladybug.Proofs.C10Pinned
 import Ladybug.Proofs.C10Hist
+import Ladybug.Proofs.C10List
 
 namespace Sky
 open Real
@@ -547,5 +555,147 @@ example : ∃ r, directional (35 : ℝ) 140 800 120 35 140 0.3 true = .ok r ∧ 
     ⟨40.0, 100.0, 3.0, 50.0, 20.0, 18.0, 2.0, 101325.0⟩] [9.0, 9.0] false with
   | .ok [a, b] => a.1 == 0.0 && a.2 == 0.0 && b.1 > 50.0 && b.2 > 20.0
   | _ => false)
+
+
+/-! ### round 4: the list level (one pass over any sequence of altitudes) -/
+
+/-- `ashrae_clear_sky`: both result lists have one value per altitude. -/
+theorem C10_clear_sky_list_shape (alts : List ℝ) (month : Int) (cl : ℝ) (dn dh : List ℝ)
+    (h : clearSkyList alts month cl = .ok (dn, dh)) :
+    dn.length = alts.length ∧ dh.length = alts.length :=
+  pairList_length _ alts dn dh h
+
+/-- `ashrae_clear_sky`: element `i` of each result list is the model's answer for altitude `i` ALONE
+    (no dependence on the other altitudes, on the position, or on an earlier pass). -/
+theorem C10_clear_sky_list_pointwise (alts : List ℝ) (month : Int) (cl : ℝ) (dn dh : List ℝ)
+    (h : clearSkyList alts month cl = .ok (dn, dh)) (i : Nat) (a : ℝ) (ha : alts[i]? = some a) :
+    ∃ x y, dn[i]? = some x ∧ dh[i]? = some y ∧ clearSky1 a month cl = .ok (x, y) :=
+  pairList_get _ alts dn dh h i a ha
+
+/-- `ashrae_clear_sky`: the answer for a sequence delivered in two parts is the two answers joined, list by
+    list — the result depends on the numbers only, not on the container that delivers them. -/
+theorem C10_clear_sky_list_append (xs zs : List ℝ) (month : Int) (cl : ℝ) :
+    clearSkyList (xs ++ zs) month cl = joinPairs (clearSkyList xs month cl) (clearSkyList zs month cl) :=
+  pairList_append _ xs zs
+
+/-- Tau model: one value per altitude in both lists. -/
+theorem C10_revised_list_shape (alts : List ℝ) (tb td : ℝ) (u : Bool) (dn dh : List ℝ)
+    (h : revisedClearSkyList alts tb td u = .ok (dn, dh)) :
+    dn.length = alts.length ∧ dh.length = alts.length :=
+  pairList_length _ alts dn dh h
+
+/-- Tau model: element `i` is the answer for altitude `i` alone — in BOTH lists (a second pass over the
+    altitudes that saw nothing would leave the diffuse list short: excluded by `C10_revised_list_shape`). -/
+theorem C10_revised_list_pointwise (alts : List ℝ) (tb td : ℝ) (u : Bool) (dn dh : List ℝ)
+    (h : revisedClearSkyList alts tb td u = .ok (dn, dh)) (i : Nat) (a : ℝ) (ha : alts[i]? = some a) :
+    ∃ x y, dn[i]? = some x ∧ dh[i]? = some y ∧ revisedClearSky1 a tb td u = .ok (x, y) :=
+  pairList_get _ alts dn dh h i a ha
+
+/-- Tau model: delivery in two parts. -/
+theorem C10_revised_list_append (xs zs : List ℝ) (tb td : ℝ) (u : Bool) :
+    revisedClearSkyList (xs ++ zs) tb td u =
+      joinPairs (revisedClearSkyList xs tb td u) (revisedClearSkyList zs tb td u) :=
+  pairList_append _ xs zs
+
+/-- `ASHRAEClearSky.radiation_values` as three lists: equal lengths; the direct and diffuse lists ARE the
+    lists of `ashrae_clear_sky` on the same altitudes (building the global list leaves the diffuse list as
+    it was); and element by element global = diffuse + direct·sin(altitude). -/
+theorem C10_sky_list_closure_clear (alts : List ℝ) (month : Int) (cl : ℝ) (dn dh gh : List ℝ)
+    (h : designDayClearSkyList alts month cl = .ok (dn, dh, gh)) :
+    (dn.length = alts.length ∧ dh.length = alts.length ∧ gh.length = alts.length) ∧
+    clearSkyList alts month cl = .ok (dn, dh) ∧
+    ∀ (i : Nat) (a : ℝ), alts[i]? = some a → ∃ x y z, dn[i]? = some x ∧ dh[i]? = some y ∧ gh[i]? = some z ∧
+      z = y + x * Real.sin (a * (π / 180)) := by
+  refine ⟨tripleList_length _ alts dn dh gh h, ?_, ?_⟩
+  · obtain ⟨rs, hm, rfl, rfl, rfl⟩ := tripleList_ok _ alts dn dh gh h
+    have hp := tripleList_pair (fun a => designDayClearSky1 a month cl) (fun a => clearSky1 a month cl)
+      (fun a r hr => (designday_closure a cl month r hr).2) alts rs hm
+    unfold clearSkyList pairList
+    rw [hp]
+    simp
+  · intro i a ha
+    obtain ⟨x, y, z, hx, hy, hz, hf⟩ := tripleList_get _ alts dn dh gh h i a ha
+    exact ⟨x, y, z, hx, hy, hz, (designday_closure a cl month (x, y, z) hf).1⟩
+
+/-- `ASHRAETau.radiation_values` as three lists: the same three facts for the sibling class. -/
+theorem C10_sky_list_closure_tau (alts : List ℝ) (tb td : ℝ) (u : Bool) (dn dh gh : List ℝ)
+    (h : designDayTauList alts tb td u = .ok (dn, dh, gh)) :
+    (dn.length = alts.length ∧ dh.length = alts.length ∧ gh.length = alts.length) ∧
+    revisedClearSkyList alts tb td u = .ok (dn, dh) ∧
+    ∀ (i : Nat) (a : ℝ), alts[i]? = some a → ∃ x y z, dn[i]? = some x ∧ dh[i]? = some y ∧ gh[i]? = some z ∧
+      z = y + x * Real.sin (a * (π / 180)) := by
+  refine ⟨tripleList_length _ alts dn dh gh h, ?_, ?_⟩
+  · obtain ⟨rs, hm, rfl, rfl, rfl⟩ := tripleList_ok _ alts dn dh gh h
+    have hp := tripleList_pair (fun a => designDayTau1 a tb td u) (fun a => revisedClearSky1 a tb td u)
+      (fun a r hr => (designday_tau_closure a tb td u r hr).2) alts rs hm
+    unfold revisedClearSkyList pairList
+    rw [hp]
+    simp
+  · intro i a ha
+    obtain ⟨x, y, z, hx, hy, hz, hf⟩ := tripleList_get _ alts dn dh gh h i a ha
+    exact ⟨x, y, z, hx, hy, hz, (designday_tau_closure a tb td u (x, y, z) hf).1⟩
+
+/-- Sibling sky classes agree where the statement makes them agree: with the sun at or below the horizon at
+    every step, BOTH classes return three lists of zeros of the same length (for any month, clearness,
+    optical depths, model year). -/
+theorem C10_sky_list_night_siblings (alts : List ℝ) (month : Int) (cl tb td : ℝ) (u : Bool)
+    (hn : ∀ a ∈ alts, a ≤ 0) :
+    designDayClearSkyList alts month cl = .ok (alts.map fun _ => 0, alts.map fun _ => 0, alts.map fun _ => 0) ∧
+    designDayTauList alts tb td u = designDayClearSkyList alts month cl := by
+  have h1 : mapE (fun a => designDayClearSky1 a month cl) alts = .ok (alts.map fun _ => ((0 : ℝ), (0 : ℝ), (0 : ℝ))) := by
+    apply mapE_of_forall
+    intro a ha
+    simp only [designDayClearSky1, night_clear_sky a cl month (hn a ha)]
+    simp
+  have h2 : mapE (fun a => designDayTau1 a tb td u) alts = .ok (alts.map fun _ => ((0 : ℝ), (0 : ℝ), (0 : ℝ))) := by
+    apply mapE_of_forall
+    intro a ha
+    simp only [designDayTau1, night_revised a tb td u (hn a ha)]
+    simp
+  constructor
+  · unfold designDayClearSkyList tripleList
+    rw [h1]
+    simp [Function.comp_def]
+  · unfold designDayTauList designDayClearSkyList tripleList
+    rw [h1, h2]
+
+example : clearSkyList ([] : List ℝ) 6 1 = .ok ([], []) := rfl
+example : joinPairs (.ok ([(1 : ℝ)], [2])) (.ok ([3], [4])) = .ok ([1, 3], [2, 4]) := rfl
+example : ∃ r, designDayClearSkyList [(-1 : ℝ), 0] 6 1 = .ok r :=
+  ⟨_, (C10_sky_list_night_siblings [(-1 : ℝ), 0] 6 1 0.4 2 false
+    (by intro a ha; simp at ha; rcases ha with rfl | rfl <;> norm_num)).1⟩
+
+/-! ### round 4: the branches of the case splits -/
+
+/-- The Perez sky-clearness categories of `estimate_illuminance_from_irradiance`: below 1 the code raises
+    (`none`), from 1 on exactly one of the eight categories is taken, and the category is the interval the
+    value lies in (each boundary belongs to the UPPER category). -/
+theorem C10_eps_category_branches (eps : ℝ) :
+    (eps < 1 → epsCategory eps = none) ∧
+    (1 ≤ eps → ∃ k, k < 8 ∧ epsCategory eps = some k) ∧
+    (1 ≤ eps → eps < 1.065 → epsCategory eps = some 0) ∧
+    (1.065 ≤ eps → eps < 1.23 → epsCategory eps = some 1) ∧
+    (1.23 ≤ eps → eps < 1.5 → epsCategory eps = some 2) ∧
+    (1.5 ≤ eps → eps < 1.95 → epsCategory eps = some 3) ∧
+    (1.95 ≤ eps → eps < 2.8 → epsCategory eps = some 4) ∧
+    (2.8 ≤ eps → eps < 4.5 → epsCategory eps = some 5) ∧
+    (4.5 ≤ eps → eps < 6.2 → epsCategory eps = some 6) ∧
+    (6.2 ≤ eps → epsCategory eps = some 7) := by
+  unfold epsCategory
+  norm_num
+  refine ⟨?_, ?_, ?_, ?_, ?_, ?_, ?_, ?_, ?_, ?_⟩ <;> intros <;> (repeat' split) <;> grind
+
+example : epsCategory (1.065 : ℝ) = some 1 := (C10_eps_category_branches 1.065).2.2.2.1 le_rfl (by norm_num)
+
+/-- The altitude bins of DIRINT: every altitude up to 90° falls in exactly one of the bins 0..5 (bin 5 also
+    takes everything at or below 10°, the night included); above 90° the marker −1 (Python: the LAST row). -/
+theorem C10_alt_bin_branches (a : ℝ) :
+    (a ≤ 90 → 0 ≤ altBin a ∧ altBin a ≤ 5) ∧ (90 < a → altBin a = -1) ∧
+    (a ≤ 10 → altBin a = 5) ∧ (65 < a → a ≤ 90 → altBin a = 0) := by
+  unfold altBin
+  norm_num
+  refine ⟨?_, ?_, ?_, ?_⟩ <;> intros <;> (repeat' split) <;> grind
+
+example : altBin (10 : ℝ) = 5 := (C10_alt_bin_branches 10).2.2.1 le_rfl
 
 end Sky
